@@ -316,6 +316,7 @@ func runC02(c *Ctx) {
 			dd := desc(dv)
 			v := c.mustPass(fn, []ssa.Instruction{ci.(ssa.Instruction)}, func(f string) bool {
 				return f == "call:math/big.(*Int).Sign("+dd+") != 0" || f == "call:math/big.(*Int).Sign("+dd+") > 0" || f == dd+" != 0" || f == dd+" > 0" ||
+					f == "call:math/big.(*Int).BitLen("+dd+") != 0" || f == "call:math/big.(*Int).BitLen("+dd+") > 0" || f == "call:math/big.(*Int).Sign("+dd+") == 1" || f == "call:math/big.(*Int).Sign("+dd+") >= 1" ||
 					strings.HasPrefix(f, "call:math/big.(*Int).Cmp("+dd+",") && (strings.HasSuffix(f, " != 0") || strings.HasSuffix(f, " > 0"))
 			})
 			key := uniq(fk + ":" + cn[strings.LastIndex(cn, ".")+1:] + "(" + shortArg(trace(dv)) + ")")
